@@ -379,6 +379,7 @@ func (tk *task) Failf(class, witness, format string, args ...any) {
 
 func (tk *task) Failed() bool      { return tk.fail != nil }
 func (tk *task) Probe(name string) { tk.s.Probe(name) }
+func (tk *task) Fault(name string) { tk.s.Fault(name) }
 func (tk *task) Choose(n int) int {
 	if n <= 1 {
 		return 0
